@@ -326,6 +326,50 @@ pub fn read_replay(path: &str) -> Replay {
 }
 
 // ---------------------------------------------------------------------------------------------
+// Abort guard: a panic raised while another panic is unwinding (typically a destructor of a
+// corrupted object under test) aborts the process before any verdict can be printed.  The
+// guard's panic hook sees that second panic first, saves the scenario that was running as a
+// replay, prints the VIOLATION line and exits 1.
+// ---------------------------------------------------------------------------------------------
+
+thread_local! {
+  static CURRENT_CASE: std::cell::RefCell<Option<(String, String, String)>> = const { std::cell::RefCell::new(None) }; // (property, engine, scenario json)
+}
+static CURRENT_ENGINE: Mutex<String> = Mutex::new(String::new());
+
+pub fn set_current_engine(name: &str) {
+  *CURRENT_ENGINE.lock().unwrap() = name.to_string();
+}
+
+pub fn install_abort_guard(quiet: bool) {
+  let prev = std::panic::take_hook();
+  std::panic::set_hook(Box::new(move |info| {
+    if std::thread::panicking() {
+      let msg = info.payload().downcast_ref::<&str>().map(|s| s.to_string()).or_else(|| info.payload().downcast_ref::<String>().cloned()).unwrap_or_else(|| "panic".into());
+      let case = CURRENT_CASE.with(|c| c.borrow().clone());
+      if let Some((property, engine, scenario)) = case {
+        let site: String = msg.chars().take(48).map(|c| if c.is_ascii_alphanumeric() { c } else { '_' }).collect();
+        let rep = Replay {
+          property: property.clone(),
+          engine,
+          signature: format!("abort/double_panic/{site}"),
+          message: format!("a second panic was raised while unwinding from a first one inside the code under test (the process would abort): {msg}"),
+          seed: 0,
+          scenario: serde_json::from_str(&scenario).unwrap_or(Value::Null),
+        };
+        let p = write_replay(&rep);
+        println!("  {} :: {}", rep.signature, rep.message);
+        println!("VIOLATION property={} replay={}", property, p.display());
+        std::process::exit(1);
+      }
+    }
+    if !quiet {
+      prev(info);
+    }
+  }));
+}
+
+// ---------------------------------------------------------------------------------------------
 // The proptest driver
 // ---------------------------------------------------------------------------------------------
 
@@ -425,9 +469,11 @@ where
           }
           let counting = !failed.get();
           {
+            let js = serde_json::to_string(&s).unwrap_or_default();
+            CURRENT_CASE.with(|c| *c.borrow_mut() = Some((ctx.property.clone(), CURRENT_ENGINE.lock().unwrap().clone(), js.clone())));
             let mut g = beats[shard].lock().unwrap();
             g.0 = Instant::now();
-            g.1 = Some(serde_json::to_string(&s).unwrap_or_default());
+            g.1 = Some(js);
           }
           let r = exec(&s);
           beats[shard].lock().unwrap().1 = None;
